@@ -10,6 +10,9 @@
        each triple is one call of Rate.acquire from the given loaded value
        -> per call "G<wait>:<next'>" or "R:<next'>"
 
+   rateq <pps> <maxpermits|inf> <timeout> (<last> <now> <tokens>)...
+       the same with the interval 1e9/pps kept as a rational (Rate.q_acquire), for any rate
+
    conc <interval> <maxpermits|inf> <timeout> <next0> <threads> <lab>...   lab = L<i>:<now>:<tokens> | S<i>
        runs Rate.rrun from Rate.rinit next0 threads
        -> "none" or "ok next=<z> idle=<b> tokens=<z> log=<tid>:<now>:<tok>:<last>:<G<wait>|R>,..." (oldest first) *)
@@ -83,6 +86,19 @@ let run_rate i m t rest =
     | _ -> failwith "c17 rate: bad triple" in
   String.concat " " (go rest)
 
+(* rateq <pps> <maxpermits|inf> <timeout> (<last> <now> <tokens>)...   the rational-interval model *)
+let run_rateq pps m t rest =
+  let c = { Rate.pps = z_of_string pps;
+            Rate.qmax = (if m = "inf" then None else Some (z_of_string m));
+            Rate.qtimeout = z_of_string t } in
+  let rec go = function
+    | last :: now :: tok :: r ->
+      let (nx, v) = Rate.q_acquire c (z_of_string last) (z_of_string now) (z_of_string tok) in
+      (verdict_str v ^ ":" ^ string_of_z nx) :: go r
+    | [] -> []
+    | _ -> failwith "c17 rateq: bad triple" in
+  String.concat " " (go rest)
+
 let rate_label s =
   match s.[0] with
   | 'S' -> (int_after s 1, Rate.LStore)
@@ -109,6 +125,7 @@ let run line =
   match split_ws line with
   | "sem" :: cap :: tmo :: n :: evs -> run_sem cap tmo n evs
   | "rate" :: i :: m :: t :: rest -> run_rate i m t rest
+  | "rateq" :: p :: m :: t :: rest -> run_rateq p m t rest
   | "conc" :: i :: m :: t :: next0 :: threads :: labs -> run_conc i m t next0 threads labs
   | _ -> failwith "c17: bad line"
 
